@@ -10,6 +10,7 @@ fn main() {
     let seed: u64 = a[3].parse().unwrap_or(0);
     let extra: Vec<String> = a[4..].to_vec();
     util::install_panic_hook();
+    util::start_watchdog(std::env::var("HC_CASE_TIMEOUT").ok().and_then(|v| v.parse().ok()).unwrap_or(30));
     let mut out = util::Out::new();
     match a[1].as_str() {
         "C01" => c01::run(&mut out, thorough, seed, &extra),
